@@ -8,6 +8,7 @@ import ClaripyProofs.Lemmas.Solver.CompositeKeep
 import ClaripyProofs.Lemmas.Solver.CompositeReplace
 import ClaripyProofs.Lemmas.Solver.CompositeExtrema
 import ClaripyProofs.Lemmas.Solver.CompositeExtraQueries
+import ClaripyProofs.Lemmas.Solver.CompositeBranch
 /-!
 # C12 — SolverComposite answers like a monolithic solver
 
@@ -676,6 +677,104 @@ theorem cCompHistE_ok : ∀ op ∈ cCompHistE, InScopeCE cR cRE op := by
 example : ∀ x ∈ runComp cEnv { c := {}, w := { fes := [] } } [] cCompHistE, JudgeOrGiveUp cEnv x.1 x.2.1 x.2.2 :=
   C12_composite_history_extras cHyps false cCompHistE cCompHistE_ok
 
+/-! ### `branch()` of the composite: children shared copy-on-write (Lemmas/Solver/CompositeBranch.lean) -/
+
+/-- **`branch()`** (`_blank_copy` + `_copy`): parent and copy both satisfy the bookkeeping invariant for the SAME constraint list,
+in the same world of children; NEITHER owns a child afterwards (`_owned_solvers` is replaced by an empty set on both sides: every
+shared child is owned by nobody); both have the parent's `_solvers` / constraints; every child record keeps its fields except
+`_finalized` -/
+theorem C12_branch_keeps_invariant {E : Env} {R : Con → Prop} {RE : Exp → Prop} {U : List Con} {Us : List (List Con)} {s : CSt}
+    (h : CInv R RE E U Us s) :
+    CInv R RE E U Us (compBranch s).2 ∧ CInv R RE E U Us { c := (compBranch s).1, w := (compBranch s).2.w } ∧
+    (compBranch s).1.owned = [] ∧ (compBranch s).2.c.owned = [] ∧
+    (compBranch s).1.solvers = s.c.solvers ∧ (compBranch s).2.c.solvers = s.c.solvers ∧
+    (compBranch s).1.constraints = s.c.constraints ∧ (compBranch s).2.c.constraints = s.c.constraints ∧
+    (compBranch s).2.w.fes.length = s.w.fes.length ∧
+    ∀ k, FinRel (s.child k) ((compBranch s).2.child k) :=
+  compBranch_spec h
+
+/-- **`_claim(j)` is copy-on-write**: a child the composite owns is handed back (nothing happens); a child it does not own is
+branched - the copy is the next record, owned, with the constraints and variables of `j`; record `j` is only finalized and no
+other record changes -/
+theorem C12_claim_copy_on_write {E : Env} {R : Con → Prop} {RE : Exp → Prop} {Us : List (List Con)} (s : CSt)
+    (hw : TInvS R RE E Us s.w) (j : Nat) (hj : j < s.w.fes.length) :
+    (j ∈ s.c.owned ∧ claim E j s = (.ok j, s)) ∨
+    (j ∉ s.c.owned ∧ ∃ s', claim E j s = (.ok s.w.fes.length, s') ∧
+      s'.c = { s.c with owned := listInsert s.c.owned s.w.fes.length } ∧
+      s'.w.fes.length = s.w.fes.length + 1 ∧
+      (s'.child s.w.fes.length).constraints = (s.child j).constraints ∧
+      (s'.child s.w.fes.length).variables = (s.child j).variables ∧
+      (∀ k, k < s.w.fes.length → FinRel (s.child k) (s'.child k)) ∧
+      TInvS R RE E (Us ++ [Us.getD j []]) s'.w) :=
+  claim_spec s hw j hj
+
+/-- **the frame rule (semantic half)**: the invariant of a composite reads the records ITS `_solvers` points to only.  If another
+composite `ci` acted (its invariant holds in the new world `w'`) and those records keep `constraints` and `variables`, then `cj`
+satisfies `CInv` for its own, unchanged constraint list in `w'` -/
+theorem C12_invariant_frame {E : Env} {R : Con → Prop} {RE : Exp → Prop} {Uj Ui : List Con} {Us Us' : List (List Con)}
+    {cj ci : Comp} {w w' : World}
+    (hj : CInv R RE E Uj Us { c := cj, w := w }) (hi : CInv R RE E Ui Us' { c := ci, w := w' })
+    (hlen : w.fes.length ≤ w'.fes.length)
+    (hfr : ∀ k ∈ cj.solverList, (w'.fes.getD k {}).constraints = (w.fes.getD k {}).constraints ∧
+      (w'.fes.getD k {}).variables = (w.fes.getD k {}).variables) :
+    CInv R RE E Uj Us' { c := cj, w := w' } :=
+  hj.frame hi hlen hfr
+
+/-- **one call on one composite of a tree of branched composites**, GIVEN the footprint `CompFrames` of the calls (a call leaves
+`constraints` / `variables` of every child record the composite does not own alone; what it owns / points to afterwards it owned /
+pointed to before, or is a new record): the answer is the one `Judge` demands for the constraints of the composite that was ASKED
+(`branch` included), and the tree invariant holds again: EVERY composite satisfies `CInv` for its own constraint list, a child owned
+by one composite is in no other composite's `_solvers` -/
+theorem C12_composite_tree_step_partial {E : Env} {R : Con → Prop} {RE : Exp → Prop} (H : SolverHyps R RE E)
+    (hF : CompFrames R RE E) {UU Us : List (List Con)} {t : TSt} (ht : TreeInv R RE E UU Us t) (i : Nat) (hi : i < t.cs.length)
+    (op : Op) (hop : op = .branch ∨ InScopeCE R RE op) :
+    JudgeOrGiveUp E ((usersAll UU i op).getD i []) op (treeStep E t i op).1 ∧
+      ∃ Us', TreeInv R RE E (usersAll UU i op) Us' (treeStep E t i op).2 :=
+  tree_step H hF ht i hi op hop
+
+/-- **any history over a tree of branched composites** (calls of `C12_composite_history_extras` on any composite of the tree, and
+`branch` of any of them, interleaved at will), GIVEN `CompFrames`: every answer is the one `Judge` demands for the constraints of
+the composite that was asked (what ITS user added, on it or on the ancestors before the branch) -/
+theorem C12_composite_tree_history_partial {E : Env} {R : Con → Prop} {RE : Exp → Prop} (H : SolverHyps R RE E)
+    (hF : CompFrames R RE E) (track : Bool) (hist : List (Nat × Op)) (hok : HistOkT R RE 1 hist) :
+    ∀ x ∈ runTree E { cs := [{ track := track }], w := { fes := [] } } [[]] hist, JudgeOrGiveUp E x.1 x.2.1 x.2.2 :=
+  tree_hist H hF hist _ [[]] [] (treeInv_init R RE E track) hok
+
+/-- the full statement of branch isolation for composites: `C12_composite_tree_history_partial` without `CompFrames`.  What is
+missing is exactly `CompFrames R RE E` (for every `SolverHyps` environment): the footprint of `compStep` - a walk through `_add`
+(`_solver_for_names`, `_claim`: `C12_claim_copy_on_write`, the child's `add` on the CLAIMED record, `_store_child`), `satisfiable` /
+the value queries (`_solver_for_names`, the child's query: `FootQ` keeps constraints and variables, `_reabsorb_solver`: `update`
+writes caches of an old child, the parts of `split` are new records) recording which records change. -/
+def C12_composite_tree_history : Prop :=
+  ∀ (E : Env) (R : Con → Prop) (RE : Exp → Prop), SolverHyps R RE E → ∀ (track : Bool) (hist : List (Nat × Op)),
+    HistOkT R RE 1 hist →
+    ∀ x ∈ runTree E { cs := [{ track := track }], w := { fes := [] } } [[]] hist, JudgeOrGiveUp E x.1 x.2.1 x.2.2
+
+/-- non-vacuity: a tree history in scope in the environment of C11 (branch, the two sides learn different things, both are asked) -/
+def cTreeHist : List (Nat × Op) :=
+  [(0, .add [cCon]), (0, .branch), (1, .add [cEq]), (0, .eval cExp 2 []), (1, .eval cExp 2 [cCon]), (1, .branch),
+   (2, .satisfiable [cFalse]), (0, .add [cEq]), (2, .max cExp [] false)]
+
+theorem cTreeHist_ok : HistOkT cR cRE 1 cTreeHist := by
+  have hc : cR cCon := Or.inr (Or.inl rfl)
+  have hq : cR cEq := Or.inr (Or.inr (Or.inl rfl))
+  have hf : cR cFalse := Or.inl rfl
+  have h1 : ∀ c ∈ [cEq], cR c := fun c hc' => by simp at hc'; subst hc'; exact hq
+  have h2 : ∀ c ∈ [cCon], cR c := fun c hc' => by simp at hc'; subst hc'; exact hc
+  have h3 : ∀ c ∈ [cFalse], cR c := fun c hc' => by simp at hc'; subst hc'; exact hf
+  have h0 : ∀ c ∈ ([] : List Con), cR c := fun c hc' => by cases hc'
+  have a1 : InScopeCE cR cRE (.add [cCon]) :=
+    ⟨fun c hc' => by simp at hc'; subst hc'; exact hc, fun c hc' hv => by simp at hc'; subst hc'; simp [cCon] at hv⟩
+  have a2 : InScopeCE cR cRE (.add [cEq]) :=
+    ⟨fun c hc' => by simp at hc'; subst hc'; exact hq, fun c hc' hv => by simp at hc'; subst hc'; simp [cEq] at hv⟩
+  refine ⟨by decide, Or.inr a1, by decide, Or.inl rfl, by decide, Or.inr a2, by decide, Or.inr ⟨rfl, rfl, by decide, h0⟩,
+    by decide, Or.inr ⟨rfl, rfl, by decide, h2⟩, by decide, Or.inl rfl, by decide, Or.inr h3, by decide, Or.inr a2,
+    by decide, Or.inr ⟨rfl, rfl, h0⟩, trivial⟩
+
+/-- non-vacuity of the tree invariant: the tree of one empty composite; and of the footprint: the empty `add` -/
+example : TreeInv cR cRE cEnv [[]] [] { cs := [{}], w := { fes := [] } } := treeInv_init cR cRE cEnv false
+example (s : CSt) : StepFrame s (compStep cEnv s (.add [])).2 := StepFrame.refl s
+
 /-- **The full statement**: every history of public calls on a CompositeFrontend (hence, with the mixin layers of C11 on top, on
 a SolverComposite) is answered as the property statement demands for all the constraints added.  Proved: **`C12_composite_history`**
 — ANY history of add / satisfiable() / eval / batch_eval / min / max / solution (no extra constraints) / is_true / is_false (any
@@ -687,7 +786,9 @@ extra constraints on EVERY query (`C12_satisfiable_extra_correct`, `C12_eval_ext
 C11's `MCInv` hold under the guard the code uses (`C12_marker_guarded`; `C12_reabsorb_marker_without_model` is the record that made
 the old form false).  Missing:
   * `simplify` (a child's `variables` may keep a variable its constraints lost: `ExactVars` fails, see design_notes/C12.md),
-    `branch` / pickling of the composite (children shared copy-on-write between composites);
+    pickling of the composite; `branch` of the composite: `C12_branch_keeps_invariant`, `C12_claim_copy_on_write`,
+    `C12_invariant_frame` are proved, whole trees (`C12_composite_tree_history`) are proved GIVEN the footprint `CompFrames` of the calls
+    (`C12_composite_tree_history_partial`);
   * the mixins of class SolverComposite above CompositeFrontend, CompositedCacheMixin among them. -/
 def C12_full : Prop :=
   ∀ (E : Env) (R : Con → Prop) (RE : Exp → Prop), SolverHyps R RE E → ∀ (track : Bool) (hist : List Op),
